@@ -4,9 +4,10 @@
    integer division by zero in the translated code, the generators outside their domain,
    and that infeasibility yields [] rather than an error.  (The translator itself refuses any
    `raise` of something other than ValueError in the translated functions.) *)
-From Coq Require Import List Arith ZArith Bool.
+From Coq Require Import List Arith ZArith Bool Orders.
 From MM Require Import lib.ListSet lib.Values model.Heap model.Elig model.SearchParams model.SearchDefs model.Search
-  gen.Gen_Search proofs.GroupSpecs proofs.SearchBridge proofs.ExhaustiveProofs proofs.GreedyProofs proofs.TotalityProofs.
+  gen.Gen_Search proofs.GroupSpecs proofs.SearchBridge proofs.ExhaustiveProofs proofs.GreedyProofs proofs.TotalityProofs
+  proofs.GreedyTermination.
 Import ListNotations.
 
 Theorem C09_within_constraints_never_divides_by_zero :
@@ -50,6 +51,29 @@ Theorem C09_generated_treat_guard : forall n, gen_treatment_group_generator_rais
 Proof. exact bridge_treat_raises. Qed.
 Theorem C09_generated_control_guard : forall A T, gen_control_group_generator_raises A T = control_groups_raises A T.
 Proof. exact bridge_control_raises. Qed.
+
+(* the greedy hill climb terminates: scores in a total order, finitely many score values (one per
+   pair of geo sets); a fuel above the initial potential yields a result, and more fuel never
+   changes it *)
+Module C09 (K : UsualOrderedTypeFull').
+  Module G := GreedyTerm K.
+  Theorem C09_greedy_terminates :
+    forall (V : Type) (O : vops V) (A : assignments) (par : spar V)
+           (shareS : set -> V) (bud : set -> set -> V) (gkey : set -> set -> K.t) (zero_key : K.t) (L : list K.t),
+      (forall T C, In (gkey T C) L) ->
+      exists ds, greedy O G.HP.kltb A par shareS bud gkey zero_key
+                        (S (G.potential A par gkey L (ginit A))) = Some ds.
+  Proof. exact @G.greedy_terminates. Qed.
+  Theorem C09_greedy_result_independent_of_fuel :
+    forall (V : Type) (O : vops V) (A : assignments) (par : spar V)
+           (shareS : set -> V) (bud : set -> set -> V) (gkey : set -> set -> K.t) (zero_key : K.t) f1 f2 ds,
+      (f1 <= f2)%nat -> greedy O G.HP.kltb A par shareS bud gkey zero_key f1 = Some ds ->
+      greedy O G.HP.kltb A par shareS bud gkey zero_key f2 = Some ds.
+  Proof. exact @G.greedy_result_independent_of_fuel. Qed.
+End C09.
+Module C09Z := C09 Z.
+Print Assumptions C09Z.C09_greedy_terminates.
+Print Assumptions C09Z.C09_greedy_result_independent_of_fuel.
 
 Print Assumptions C09_within_constraints_never_divides_by_zero.
 Print Assumptions C09_size_generator_never_divides_by_zero.
